@@ -435,13 +435,27 @@ M.contract('exactly_lib.util.symbol_table:symbol_table_from_none_or_value', trus
 M.trust('processors.new_executor_that_may_pollute_current_processes2 stores its three arguments (constructor of '
         '_Executor; its use of is_keep_sandbox and exe_atc_and_skip_assertions is C04 / C01)')
 
+class SandboxRootDirResolverI(Interface):
+    """SandboxRootDirNameResolver: calling it CREATES the root directory of a sandbox (tempfile.mkdtemp)"""
+    methods = {'__call__': Method(returns=Str, event='resolve-sandbox-root-dir')}
+
+
 M.contract('exactly_lib.processing.standalone.processor:Processor._executor',
            params=dict(self=Inst(standalone_processor.Processor, _test_case_definition=Iface(TcDefI),
                                  _os_services=Any_, _suite_configuration_section_parser=Any_, _mem_buff_size=Int),
-                       act_phase_setup=Any_, is_keep_sandbox=Bool, sandbox_root_dir_resolver=Any_,
+                       act_phase_setup=Any_, is_keep_sandbox=Bool, sandbox_root_dir_resolver=Iface(SandboxRootDirResolverI),
                        result_reporter=Iface(ReporterI)),
            returns=Any_,
-           ensures={'keep-flag-and-act-output-files-reach-the-executor': lambda is_keep_sandbox, result_reporter, trace:
+           ensures={
+               # C03 ("an invalid test case has no effects"): the executor is built before the case is read; the
+               # directory of the sandbox must not come into existence here (seeded change C03-s9: with --keep the
+               # resolver was called eagerly, leaving an empty directory behind for a case that does not parse)
+               'no sandbox directory is created while the executor is built; the resolver is handed on as it is':
+                   lambda sandbox_root_dir_resolver, trace:
+                   [e for e in trace if e[0] == 'resolve-sandbox-root-dir'] == []
+                   and len(calls(trace)) == 1
+                   and calls(trace)[0][1]['exe_configuration'].sds_root_dir_resolver is sandbox_root_dir_resolver,
+'keep-flag-and-act-output-files-reach-the-executor': lambda is_keep_sandbox, result_reporter, trace:
            len(calls(trace)) == 1 and calls(trace)[0][0] == 'new-executor'
            and calls(trace)[0][1]['is_keep_sandbox'] is is_keep_sandbox
            and calls(trace)[0][1]['exe_configuration'].exe_atc_and_skip_assertions
